@@ -192,8 +192,8 @@ func (s *vC05Seq) storedValidFor(key string, raw []byte, vt int64) (vC05Val, *re
 // drain judges the journal entries appended since the last call.
 func (s *vC05Seq) drain() {
 	c := s.c
-	es := s.j.Entries()
-	for _, e := range es[s.seen:] {
+	es := s.j.EntriesFrom(s.seen)
+	for _, e := range es {
 		if e.Err != "" {
 			continue
 		}
@@ -269,7 +269,7 @@ func (s *vC05Seq) drain() {
 			c.Obs("journal_gets", 1)
 		}
 	}
-	s.seen = len(es)
+	s.seen += len(es)
 }
 
 func (s *vC05Seq) dsKeyFor(key string) (string, bool) {
@@ -591,8 +591,8 @@ func vC05SeqBody(c *vh.Case) {
 }
 
 func TestVerif_C05_seq(t *testing.T) {
-	vh.Run(t, vh.Spec{Prop: "C05", Unit: "seq", Quick: 4000, Thorough: 200000, CostMs: 2,
-		Rule: "synctest bubble per case; PRNG history of 12-41 Put/Get/advance/restart operations on 2-4 keys (namespaced or plain validator, keys sharing a lock stripe, odd keys, optional junk pre-filed in the datastore), generated validator (value = id|rank|invalid mark|validator expiry|key; Select = higher rank, tie first or last), puts better/equal/worse/invalid/mis-keyed/expiring with hostile sender receive-times, clock advances aimed at MaxRecordAge +-1ns of an acknowledged record, background sweep at MaxRecordAge/5..1.3x; oracle over the vt-stamped vjds journal and over results; non-trivial = at least one refusal as old, one replacement of an acknowledged record and one age-out (or ageing disabled); distinct by hash of (operation class, outcome) sequence",
+	vh.Run(t, vh.Spec{Prop: "C05", Unit: "seq", Quick: 8000, Thorough: 300000, CostMs: 2,
+		Rule:    "synctest bubble per case; PRNG history of 12-41 Put/Get/advance/restart operations on 2-4 keys (namespaced or plain validator, keys sharing a lock stripe, odd keys, optional junk pre-filed in the datastore), generated validator (value = id|rank|invalid mark|validator expiry|key; Select = higher rank, tie first or last), puts better/equal/worse/invalid/mis-keyed/expiring with hostile sender receive-times, clock advances aimed at MaxRecordAge +-1ns of an acknowledged record, background sweep at MaxRecordAge/5..1.3x; oracle over the vt-stamped vjds journal and over results; non-trivial = at least one refusal as old, one replacement of an acknowledged record and one age-out (or ageing disabled); distinct by hash of (operation class, outcome) sequence",
 		Clauses: []string{"stored-valid", "stored-key-match", "stamp", "no-downgrade", "delete-justified", "read-valid", "read-fresh", "read-known", "ack-stored", "ack-readable", "aged-out-absent", "reject-justified", "reject-no-effect", "get-writes-nothing"}},
 		func(c *vh.Case) {
 			c.Bubble(t, 24*365*10*time.Hour, "hang", func(t *testing.T) { vC05SeqBody(c) })
@@ -648,16 +648,19 @@ func (g *vC05Gate) hook(e *vjds.Entry) error {
 }
 
 type vC05PutRes struct {
-	key   string
-	val   vC05Val
-	class string // valid invalid mis-keyed
-	res   string // ok old invalid err
+	key       string
+	val       vC05Val
+	class     string // valid invalid mis-keyed
+	res       string // ok old invalid err
+	call, ret int64
 }
 
-// vC05CheckJournal: per datastore key, ranks written never decrease unless a delete lies between;
-// every written record valid and correctly keyed. Returns the replayed final content.
-func vC05CheckJournal(c *vh.Case, j *vjds.Journal, val *vC05Validator) (seqHash string, downgrades int) {
+// vC05CheckJournal: per datastore key (writes are journaled in effect order), ranks written
+// never decrease unless a delete lies between; every written record valid and correctly keyed;
+// every delete removes exactly a pre-filed expired record (stale: ds key -> its bytes).
+func vC05CheckJournal(c *vh.Case, j *vjds.Journal, val *vC05Validator, stale map[string]string) (seqHash string, downgrades int) {
 	final := map[string]vC05Val{}
+	raw := map[string]string{}
 	held := map[string]bool{}
 	var seq []string
 	for _, e := range j.Entries() {
@@ -681,12 +684,18 @@ func vC05CheckJournal(c *vh.Case, j *vjds.Journal, val *vC05Validator) (seqHash 
 					downgrades++
 				}
 			}
-			held[e.Key], final[e.Key] = true, d
+			held[e.Key], final[e.Key], raw[e.Key] = true, d, string(e.Value)
 			seq = append(seq, fmt.Sprintf("%s=%d", key, d.Rank))
 		case vjds.OpDelete:
 			c.Obs("journal_deletes", 1)
+			if held[e.Key] {
+				st, ok := stale[e.Key]
+				p := final[e.Key]
+				c.Check(ok && st == raw[e.Key], "delete-justified", "journal #%d: delete of %s removed record id=%d rank=%d, which is not older than MaxRecordAge (only the pre-filed record is)", e.Seq, e.Key, p.ID, p.Rank)
+			}
 			held[e.Key] = false
 			delete(final, e.Key)
+			delete(raw, e.Key)
 		}
 	}
 	seqHash = vC05Hash(seq)
@@ -705,141 +714,252 @@ func vC05OverlapKeys(c *vh.Case) []string {
 	return pool[c.R.Intn(len(pool))]
 }
 
+type vC05GetRes struct {
+	key       string
+	call, ret int64
+	id, rank  int // id 0 = nothing returned
+	err       error
+}
+
+const vC05StaleID = 9000 // ids >= this are pre-filed expired records
+
+// vC05OverlapBody: concurrent writers under the forced-overlap gate. With expiry, every key
+// starts with a pre-filed record that expired an hour ago, and readers plus the 1 ms sweeper
+// race with the writers to discard it: a discard must never hit a record written meanwhile.
+func vC05OverlapBody(c *vh.Case, expiry bool) {
+	r := c.R
+	keys := vC05OverlapKeys(c)
+	nw := 4 + r.Intn(5)
+	per := 6 + r.Intn(5)
+	g := &vC05Gate{waiting: map[string]chan struct{}{}, hold: 300 * time.Microsecond, yield: r.Intn(2) == 0}
+	j := vjds.NewJournal()
+	store := vjds.NewNamed(j, "values")
+	val := &vC05Validator{tieLast: r.Intn(3) == 0}
+	maxAge := []time.Duration{0, time.Hour}[r.Intn(2)]
+	if expiry {
+		maxAge = time.Hour
+	}
+	vs := NewValueStore(store, record.NamespacedValidator{"va": val, "vb": val}, maxAge)
+	ctx := context.Background()
+	gcCtx, gcCancel := context.WithCancel(context.Background())
+	defer gcCancel()
+	c.Set("keys", keys)
+	c.Set("writers", nw)
+	c.Set("puts_per_writer", per)
+	c.Set("expiry_race", expiry)
+	stale := map[string]string{}
+	staleRank := map[string]int{}
+	nReaders := 0
+	if expiry {
+		old := time.Now().Add(-2 * time.Hour).UTC().Format(time.RFC3339Nano)
+		for i, k := range keys {
+			if r.Intn(5) == 0 {
+				continue // nothing pre-filed under this key
+			}
+			v := vC05Val{ID: vC05StaleID + i, Rank: r.Intn(16), Key: k}
+			b, _ := proto.Marshal(vC05Rec(k, v, old))
+			dk := valueDsKey(k)
+			store.Put(vjds.WithRole(ctx, "seed"), dk, b)
+			stale[dk.String()], staleRank[k] = string(b), v.Rank
+		}
+		nReaders = 2 + r.Intn(2)
+	}
+	j.Hook = g.hook
+	var clock atomic.Int64
+	results := make([][]vC05PutRes, nw)
+	plans := make([][]vC05PutRes, nw)
+	for w := 0; w < nw; w++ {
+		for i := 0; i < per; i++ {
+			k := keys[r.Intn(len(keys))]
+			p := vC05PutRes{key: k, class: "valid", val: vC05Val{ID: 1 + w*100 + i, Rank: 2*i + r.Intn(7), Key: k}} // drifting upwards: many accepted writes
+			switch r.Intn(12) {
+			case 0:
+				p.class, p.val.Bad, p.val.Rank = "invalid", true, 50
+			case 1:
+				p.class, p.val.Key, p.val.Rank = "mis-keyed", k+"#other", 50
+			}
+			plans[w] = append(plans[w], p)
+		}
+	}
+	var wg sync.WaitGroup
+	start := make(chan struct{})
+	for w := 0; w < nw; w++ {
+		wg.Add(1)
+		go func(w int) {
+			defer wg.Done()
+			<-start
+			for _, p := range plans[w] {
+				p.call = clock.Add(1)
+				err := vs.Put(ctx, p.key, vC05Rec(p.key, p.val, ""))
+				p.ret = clock.Add(1)
+				switch {
+				case err == nil:
+					p.res = "ok"
+				case errors.Is(err, ErrOldRecord):
+					p.res = "old"
+				case strings.Contains(err.Error(), "validating record"):
+					p.res = "invalid"
+				default:
+					p.res = "err:" + err.Error()
+				}
+				results[w] = append(results[w], p)
+			}
+		}(w)
+	}
+	reads := make([][]vC05GetRes, nReaders)
+	for rd := 0; rd < nReaders; rd++ {
+		wg.Add(1)
+		n := 20 + r.Intn(30)
+		off := r.Intn(len(keys))
+		go func(rd, n, off int) {
+			defer wg.Done()
+			rctx := vjds.WithRole(context.Background(), "reader")
+			<-start
+			for i := 0; i < n; i++ {
+				gr := vC05GetRes{key: keys[(i+off)%len(keys)]}
+				gr.call = clock.Add(1)
+				rec, err := vs.Get(rctx, gr.key)
+				gr.ret = clock.Add(1)
+				gr.err = err
+				if rec != nil {
+					if d, ok := vC05Dec(rec.GetValue()); ok && string(rec.GetKey()) == gr.key {
+						gr.id, gr.rank = d.ID, d.Rank
+					} else {
+						gr.id = -1
+					}
+				}
+				reads[rd] = append(reads[rd], gr)
+				if i%3 == 0 {
+					runtime.Gosched()
+				}
+			}
+		}(rd, n, off)
+	}
+	if expiry {
+		vs.StartGC(gcCtx, time.Millisecond)
+	}
+	close(start)
+	wg.Wait()
+	vs.Close() // stops the sweeper
+	g.hold = 0 // the final reads are not gated
+	seqHash, downgrades := vC05CheckJournal(c, j, val, stale)
+	written := map[int]bool{}
+	for _, e := range j.Entries() {
+		if e.Op == vjds.OpPut && e.Err == "" {
+			rec := new(recpb.Record)
+			if proto.Unmarshal(e.Value, rec) == nil {
+				if d, ok := vC05Dec(rec.GetValue()); ok && d.ID < vC05StaleID {
+					written[d.ID] = true
+				}
+			}
+		}
+	}
+	best := map[string]int{}
+	bestSet := map[string]bool{}
+	acks, refusals := map[string]int{}, 0
+	var acked []vC05PutRes
+	for w := range results {
+		for _, p := range results[w] {
+			c.Obs("puts", 1)
+			switch p.res {
+			case "ok":
+				c.Check(p.class == "valid", "stored-valid", "Put acknowledged %s record id=%d", p.class, p.val.ID)
+				c.Check(written[p.val.ID], "ack-stored", "Put(%q, id=%d) acknowledged but never written to the datastore", p.key, p.val.ID)
+				acks[p.key]++
+				acked = append(acked, p)
+				if !bestSet[p.key] || p.val.Rank > best[p.key] {
+					best[p.key], bestSet[p.key] = p.val.Rank, true
+				}
+			case "old":
+				refusals++
+				c.Check(p.class == "valid", "reject-justified", "%s record id=%d refused as old instead of invalid", p.class, p.val.ID)
+			case "invalid":
+				c.Check(p.class != "valid", "reject-justified", "valid record id=%d rejected by validation", p.val.ID)
+			default:
+				c.Fail("put-error", "Put(%q, id=%d) failed: %s", p.key, p.val.ID, p.res)
+			}
+		}
+	}
+	for id := range written {
+		found := false
+		for _, p := range acked {
+			if p.val.ID == id {
+				found = true
+			}
+		}
+		c.Check(found, "ack-stored", "record id=%d was written to the datastore but its Put was not acknowledged", id)
+	}
+	// reads racing with the writers, the discards and the sweeper (nothing written during the
+	// run can age out: MaxRecordAge is one hour of real time)
+	nilReads, liveReads := 0, 0
+	for rd := range reads {
+		for _, gr := range reads[rd] {
+			c.Obs("gets", 1)
+			if gr.err != nil {
+				c.Fail("get-error", "Get(%q): %v", gr.key, gr.err)
+				continue
+			}
+			c.Check(gr.id >= 0 && gr.id < vC05StaleID, "read-fresh", "Get(%q) [%d,%d] served the pre-filed record id=%d that is an hour older than MaxRecordAge", gr.key, gr.call, gr.ret, gr.id)
+			need, needID := -1, 0
+			for _, p := range acked {
+				if p.key == gr.key && p.ret < gr.call && p.val.Rank > need {
+					need, needID = p.val.Rank, p.val.ID
+				}
+			}
+			if gr.id == 0 {
+				nilReads++
+			} else {
+				liveReads++
+			}
+			if need >= 0 {
+				c.Check(gr.id > 0 && gr.rank >= need, "ack-readable", "Get(%q) [%d,%d] returned id=%d rank=%d although Put id=%d rank=%d had been acknowledged before the call", gr.key, gr.call, gr.ret, gr.id, gr.rank, needID, need)
+			}
+		}
+	}
+	multi := false
+	for _, k := range keys {
+		if acks[k] >= 2 {
+			multi = true
+		}
+		rec, err := vs.Get(ctx, k)
+		if err != nil {
+			c.Fail("get-error", "Get(%q): %v", k, err)
+			continue
+		}
+		if !bestSet[k] {
+			c.Check(rec == nil, "final-is-best", "Get(%q) returned a record although no put was acknowledged", k)
+			continue
+		}
+		if !c.Check(rec != nil, "final-is-best", "Get(%q) returned nothing after %d acknowledged puts", k, acks[k]) {
+			continue
+		}
+		d, _ := vC05Dec(rec.GetValue())
+		c.Check(d.Rank == best[k], "final-is-best", "key %q: final stored record id=%d rank=%d, best acknowledged rank %d", k, d.ID, d.Rank, best[k])
+	}
+	c.Obs("gate_timeouts", int(g.timeouts.Load()))
+	c.Obs("gate_overlaps", int(g.overlaps.Load()))
+	c.Obs("downgrades", downgrades)
+	c.Obs("refusals", refusals)
+	c.Obs("reads_nothing", nilReads)
+	c.Obs("reads_live", liveReads)
+	if g.timeouts.Load()+g.overlaps.Load() > 0 && refusals > 0 && multi && (!expiry || (nilReads > 0 && liveReads > 0)) {
+		c.Nontrivial(seqHash)
+	}
+}
+
 func TestVerif_C05_overlap(t *testing.T) {
-	vh.Run(t, vh.Spec{Prop: "C05", Unit: "overlap", Quick: 160, Thorough: 8000, CostMs: 45,
-		Rule: "real goroutines (no bubble): 4-8 concurrent writers x 6-10 Puts of unique valid records with PRNG ranks (plus a few invalid / mis-keyed ones) on 2-4 keys sharing / not sharing a lock stripe; vjds hook = forced-overlap gate on the datastore Get inside Put (first arriver held until a second Get on the same key arrives or 300us real time pass); oracle over the journal: per key ranks written never decrease, every write valid and correctly keyed, every acknowledged put was written, final stored record = an acknowledged one of the best acknowledged rank; non-trivial = gate engaged (timeouts or overlaps), >=1 refusal and >=2 accepted writes on one key; distinct by hash of the per-key write sequence",
+	vh.Run(t, vh.Spec{Prop: "C05", Unit: "overlap", Quick: 240, Thorough: 10000, CostMs: 45,
+		Rule:    "real goroutines (no bubble): 4-8 concurrent writers x 6-10 Puts of unique valid records with upward-drifting PRNG ranks (plus a few invalid / mis-keyed ones) on 2-4 keys sharing / not sharing a lock stripe; vjds hook = forced-overlap gate on the datastore Get inside Put (first arriver held until a second Get on the same key arrives or 300us real time pass); in 1 of 3 cases additionally the expiry race of unit expiryrace; oracle over the journal: per key ranks written never decrease, every write valid and correctly keyed, every acknowledged put was written, final stored record = an acknowledged one of the best acknowledged rank; non-trivial = gate engaged (timeouts or overlaps), >=1 refusal and >=2 accepted writes on one key; distinct by hash of the per-key write sequence",
 		Clauses: []string{"no-downgrade", "stored-valid", "stored-key-match", "ack-stored", "final-is-best", "reject-justified"}},
-		func(c *vh.Case) {
-			r := c.R
-			keys := vC05OverlapKeys(c)
-			nw := 4 + r.Intn(5)
-			per := 6 + r.Intn(5)
-			g := &vC05Gate{waiting: map[string]chan struct{}{}, hold: 300 * time.Microsecond, yield: r.Intn(2) == 0}
-			j := vjds.NewJournal()
-			j.Hook = g.hook
-			store := vjds.NewNamed(j, "values")
-			val := &vC05Validator{tieLast: r.Intn(3) == 0}
-			vs := NewValueStore(store, record.NamespacedValidator{"va": val, "vb": val}, []time.Duration{0, time.Hour}[r.Intn(2)])
-			ctx := context.Background()
-			c.Set("keys", keys)
-			c.Set("writers", nw)
-			c.Set("puts_per_writer", per)
-			results := make([][]vC05PutRes, nw)
-			plans := make([][]vC05PutRes, nw)
-			for w := 0; w < nw; w++ {
-				for i := 0; i < per; i++ {
-					k := keys[r.Intn(len(keys))]
-					p := vC05PutRes{key: k, class: "valid", val: vC05Val{ID: 1 + w*100 + i, Rank: 2*i + r.Intn(7), Key: k}} // drifting upwards: many accepted writes
-					switch r.Intn(12) {
-					case 0:
-						p.class, p.val.Bad, p.val.Rank = "invalid", true, 50
-					case 1:
-						p.class, p.val.Key, p.val.Rank = "mis-keyed", k+"#other", 50
-					}
-					plans[w] = append(plans[w], p)
-				}
-			}
-			var wg sync.WaitGroup
-			start := make(chan struct{})
-			for w := 0; w < nw; w++ {
-				wg.Add(1)
-				go func(w int) {
-					defer wg.Done()
-					<-start
-					for _, p := range plans[w] {
-						err := vs.Put(ctx, p.key, vC05Rec(p.key, p.val, ""))
-						switch {
-						case err == nil:
-							p.res = "ok"
-						case errors.Is(err, ErrOldRecord):
-							p.res = "old"
-						case strings.Contains(err.Error(), "validating record"):
-							p.res = "invalid"
-						default:
-							p.res = "err:" + err.Error()
-						}
-						results[w] = append(results[w], p)
-					}
-				}(w)
-			}
-			close(start)
-			wg.Wait()
-			g.hold = 0 // the final reads are not gated
-			seqHash, downgrades := vC05CheckJournal(c, j, val)
-			written := map[int]bool{}
-			for _, e := range j.Entries() {
-				if e.Op == vjds.OpPut && e.Err == "" {
-					rec := new(recpb.Record)
-					if proto.Unmarshal(e.Value, rec) == nil {
-						if d, ok := vC05Dec(rec.GetValue()); ok {
-							written[d.ID] = true
-						}
-					}
-				}
-			}
-			best := map[string]int{}
-			bestSet := map[string]bool{}
-			acks, refusals := map[string]int{}, 0
-			for w := range results {
-				for _, p := range results[w] {
-					c.Obs("puts", 1)
-					switch p.res {
-					case "ok":
-						c.Check(p.class == "valid", "stored-valid", "Put acknowledged %s record id=%d", p.class, p.val.ID)
-						c.Check(written[p.val.ID], "ack-stored", "Put(%q, id=%d) acknowledged but never written to the datastore", p.key, p.val.ID)
-						acks[p.key]++
-						if !bestSet[p.key] || p.val.Rank > best[p.key] {
-							best[p.key], bestSet[p.key] = p.val.Rank, true
-						}
-					case "old":
-						refusals++
-						c.Check(p.class == "valid", "reject-justified", "%s record id=%d refused as old instead of invalid", p.class, p.val.ID)
-					case "invalid":
-						c.Check(p.class != "valid", "reject-justified", "valid record id=%d rejected by validation", p.val.ID)
-					default:
-						c.Fail("put-error", "Put(%q, id=%d) failed: %s", p.key, p.val.ID, p.res)
-					}
-				}
-			}
-			for id := range written {
-				found := false
-				for w := range results {
-					for _, p := range results[w] {
-						if p.val.ID == id && p.res == "ok" {
-							found = true
-						}
-					}
-				}
-				c.Check(found, "ack-stored", "record id=%d was written to the datastore but its Put was not acknowledged", id)
-			}
-			multi := false
-			for _, k := range keys {
-				if acks[k] >= 2 {
-					multi = true
-				}
-				rec, err := vs.Get(ctx, k)
-				if err != nil {
-					c.Fail("get-error", "Get(%q): %v", k, err)
-					continue
-				}
-				if !bestSet[k] {
-					c.Check(rec == nil, "final-is-best", "Get(%q) returned a record although no put was acknowledged", k)
-					continue
-				}
-				if !c.Check(rec != nil, "final-is-best", "Get(%q) returned nothing after %d acknowledged puts", k, acks[k]) {
-					continue
-				}
-				d, _ := vC05Dec(rec.GetValue())
-				c.Check(d.Rank == best[k], "final-is-best", "key %q: final stored record id=%d rank=%d, best acknowledged rank %d", k, d.ID, d.Rank, best[k])
-			}
-			c.Obs("gate_timeouts", int(g.timeouts.Load()))
-			c.Obs("gate_overlaps", int(g.overlaps.Load()))
-			c.Obs("downgrades", downgrades)
-			c.Obs("refusals", refusals)
-			if g.timeouts.Load()+g.overlaps.Load() > 0 && refusals > 0 && multi {
-				c.Nontrivial(seqHash)
-			}
-		})
+		func(c *vh.Case) { vC05OverlapBody(c, c.R.Intn(3) == 0) })
+}
+
+// TestVerifRace_C05_expiryrace: the overlap workload under -race with the expiry race always on.
+func TestVerifRace_C05_expiryrace(t *testing.T) {
+	vh.Run(t, vh.Spec{Prop: "C05", Unit: "expiryrace", Quick: 200, Thorough: 8000, CostMs: 25,
+		Rule:    "-race build, real goroutines: the overlap workload (4-8 writers, forced-overlap gate holding a writer inside the stripe lock) on keys that start with a pre-filed record which expired an hour ago (rank 0-15, so it may outrank the writers), plus 2-3 readers whose Gets discard expired records and the store's own sweeper every 1 ms; MaxRecordAge 1 h real time so nothing written during the run ages out; oracle: every journal delete removes exactly the pre-filed expired bytes (never a record written meanwhile), no downgrade unless a delete lies between (the expired but undeleted record still blocks worse writes), reads never return the expired record, a Get invoked after a Put was acknowledged returns that record or a better one, final = best acknowledged; non-trivial = overlap rule + some reads returned nothing and some a live record; distinct by write-sequence hash",
+		Clauses: []string{"no-downgrade", "delete-justified", "read-fresh", "ack-readable", "ack-stored", "final-is-best"}},
+		func(c *vh.Case) { vC05OverlapBody(c, true) })
 }
 
 // ---- lin: porcupine on short concurrent histories (-race build) -----------------------------
@@ -886,8 +1006,8 @@ var vC05LinModel = porcupine.Model{
 }
 
 func TestVerifRace_C05_lin(t *testing.T) {
-	vh.Run(t, vh.Spec{Prop: "C05", Unit: "lin", Quick: 400, Thorough: 20000, CostMs: 12,
-		Rule: "-race build, real goroutines: 3-6 clients issue <= 40 Put/Get operations in total on 1-3 keys (unique record ids, PRNG ranks incl. equal ranks, ~15% invalid / mis-keyed), vjds hook yields at every datastore access and in half of the cases applies the forced-overlap gate; call/return stamped by one atomic counter; porcupine v1.3.0 per key against the model 'register accepting a write iff it does not rank worse; invalid and mis-keyed writes rejected without effect; Get returns the register' (2-minute checker timeout => counted in obs porcupine_unknown, no verdict); non-trivial = some key saw >= 2 accepted puts, a refusal and a read overlapping a put; distinct by hash of the result sequence ordered by call stamp",
+	vh.Run(t, vh.Spec{Prop: "C05", Unit: "lin", Quick: 600, Thorough: 25000, CostMs: 12,
+		Rule:    "-race build, real goroutines: 3-6 clients issue <= 40 Put/Get operations in total on 1-3 keys (unique record ids, PRNG ranks incl. equal ranks, ~15% invalid / mis-keyed), vjds hook yields at every datastore access and in half of the cases applies the forced-overlap gate; call/return stamped by one atomic counter; porcupine v1.3.0 per key against the model 'register accepting a write iff it does not rank worse; invalid and mis-keyed writes rejected without effect; Get returns the register' (2-minute checker timeout => counted in obs porcupine_unknown, no verdict); non-trivial = some key saw >= 2 accepted puts, a refusal and a read overlapping a put; distinct by hash of the result sequence ordered by call stamp",
 		Clauses: []string{"linearizable"}},
 		func(c *vh.Case) {
 			r := c.R
@@ -987,7 +1107,7 @@ func TestVerifRace_C05_lin(t *testing.T) {
 			}
 			close(start)
 			wg.Wait()
-			vC05CheckJournal(c, j, val)
+			vC05CheckJournal(c, j, val, nil)
 			var sigParts []string
 			interesting := false
 			for _, k := range keys {
